@@ -194,7 +194,8 @@ def mk_engine(repo, grammars):
         dim = z3.If(z3.Or(MO == 4, MO == 6, MO == 9, MO == 11), 30, z3.If(MO == 2, z3.If(z3.And(Y % 4 == 0, z3.Or(Y % 100 != 0, Y % 400 == 0)), 29, 28), 31))
         ok = z3.And(Y >= 1, Y <= 9999, MO >= 1, MO <= 12, D_ >= 1, D_ <= dim, Hh >= 0, Hh <= 23, MI >= 0, MI <= 59, S >= 0, S <= 59, US >= 0, US <= 999999)
         outs = []
-        tzv = None if tz is None else (tz[1], tz[2]) if tz[0] == "tz_opt" else (z3.BoolVal(False), tz[1])       # (is-naive, offset minutes)
+        if isinstance(tz, SAny): tzv = (fresh("any_tz_naive", z3.BoolSort()), fresh("any_tz_offset", z3.IntSort()))      # some object read back from kept state: any time zone
+        else: tzv = None if tz is None else (tz[1], tz[2]) if tz[0] == "tz_opt" else (z3.BoolVal(False), tz[1])       # (is-naive, offset minutes)
         for st1, r in e.implicit_failure(st, ctx, "safe:datetime-range", ok, "ValueError", node):
             outs.append((st1, r if r is not None else DT(y=Y, mo=MO, d=D_, h=Hh, mi=MI, s=S, us=US, tz=tzv)))
         return outs
